@@ -145,6 +145,8 @@ pub enum Action {
     Enter,
     /// `Ring::poll(None)`: waits in the kernel until something completes.
     EnterBlocking,
+    /// Kernel-thread rings: the thread finds nothing to do and goes to sleep (IORING_SQ_NEED_WAKEUP).
+    SqThreadSleeps,
     /// Kernel completes the oldest in-flight request of operation `i`.
     Complete(usize, Oc),
     /// Kernel posts a bookkeeping CQE of shape index `i`.
@@ -288,6 +290,7 @@ pub struct OpsWorld {
     lost_reported: bool,
     cloned: bool,
     edits_done: u8,
+    sq_sleeps: u8,
 }
 
 fn v(prop: &str, sig: &str, msg: String) -> Violation {
@@ -364,6 +367,7 @@ impl OpsWorld {
             lost_reported: false,
             cloned: false,
             edits_done: 0,
+            sq_sleeps: 0,
         };
         BASE_FD_DIRECT.store(false, std::sync::atomic::Ordering::SeqCst);
         if w.cfg.fd_direct {
@@ -1293,6 +1297,9 @@ impl World for OpsWorld {
         if self.cfg.blocking_enter {
             v.push((Action::EnterBlocking, 1));
         }
+        if self.cfg.sqpoll && self.sq_sleeps < 2 && simk::with(|k| k.rings[0].sq_pending() == 0 && !k.rings[0].sq_thread_idle) {
+            v.push((Action::SqThreadSleeps, 1));
+        }
         for i in 0..self.slots.len() {
             let s = &self.slots[i];
             if s.op.is_none() || s.phase == Phase::Finished {
@@ -1388,6 +1395,13 @@ impl World for OpsWorld {
             Action::DropOp(i) => self.do_drop_op(*i),
             Action::Enter => self.do_enter(Some(Duration::ZERO)),
             Action::EnterBlocking => self.do_enter(None),
+            Action::SqThreadSleeps => {
+                self.sq_sleeps += 1;
+                simk::with(|k| {
+                    k.rings[0].sq_thread_idle = true;
+                    k.rings[0].set_sq_flag(SQ_NEED_WAKEUP, true);
+                });
+            }
             Action::Complete(i, oc) => self.do_complete(*i, *oc),
             Action::PostRaw(i) => {
                 let (ud, res, flags) = self.cfg.raw_cqes[*i];
@@ -1594,6 +1608,9 @@ impl World for OpsWorld {
             )
         });
         h.push_str(&ring);
+        if self.cfg.sqpoll {
+            h.push_str(&format!(" idle={} sleeps={}", simk::with(|k| k.rings[0].sq_thread_idle), self.sq_sleeps));
+        }
         // Handed-out pool buffers can be edited in place and handed back to the kernel: what they hold is state.
         if self.cfg.edit_held || self.cfg.reread_held {
             h.push_str(&format!(" edits={}", self.edits_done));
